@@ -17,6 +17,10 @@ func verifC14(lo, hi int) {
 	retries := verifNondetInt("retries")
 	verifAssume(retries >= lo && retries <= hi, "retry budget within the stated range")
 	vcs := &verifVCS{head: &verifStore{}, faults: true, concurrent: true}
+	vcs.maxAttempts = 1
+	if retries > 0 {
+		vcs.maxAttempts = retries + 1
+	}
 	vcs.otherEntry = verifEntry{path: "other.binarypb", digest: []byte{0xAA}, hasTime: true, sec: 7}
 	vcs.head.put("out/other.binarypb", []byte{1})
 	ec := &Context{VCS: vcs, CommitRetries: retries, OutDir: "out", Image: verifNondetBytes("image", 1),
